@@ -173,6 +173,19 @@ package transport
 //@   assert at call Error#1 arg0 == codes.Unauthenticated && callCreds.RequireTransportSecurity() && (!t.isSecure || !credentials.SpecLevelOK(riAuth(ctx), credentials.PrivacyAndIntegrity))
 //@   assert at call GetRequestMetadata#1 implies(callCreds.RequireTransportSecurity(), t.isSecure && credentials.SpecLevelOK(riAuth(ctx), credentials.PrivacyAndIntegrity))
 
+// Dial-level per-RPC credentials (DialOption / creds bundle) are checked once,
+// when the connection is made: the handshake loop in NewHTTP2Client is left
+// normally (reaching transportCreds.Info()) only if no credential that requires
+// transport security meets a connection whose reported security level is below
+// PrivacyAndIntegrity.
+//@ spec func dialCredOK(cd credentials.PerRPCCredentials, ai credentials.AuthInfo) bool {
+//@   return !(cd.RequireTransportSecurity() && credentials.SpecHasLevel(ai) && credentials.SpecLevelOf(ai) != credentials.InvalidSecurityLevel && credentials.SpecLevelOf(ai) < credentials.PrivacyAndIntegrity)
+//@ }
+//@ func NewHTTP2Client
+//@   prop C58
+//@   loop 1 invariant forall(func(j int) bool { return implies(0 <= j && j <= rangeindex, dialCredOK(perRPCCreds[j], authInfo)) })
+//@   assert at call Info#1 forall(func(j int) bool { return implies(0 <= j && j < len(perRPCCreds), dialCredOK(perRPCCreds[j], authInfo)) })
+
 // ---- C08: grpc-message percent encoding ------------------------------------------------
 
 // every byte is printable ASCII other than '%': such a message is sent verbatim
